@@ -30,9 +30,9 @@ def generate(tag, maxsteps, seeds, simulate=None):
     return states, r
 
 
-def collect(tier, tag):
+def collect(tier, tag, seeds="AllSeeds"):
     if tier == "quick":
-        states, r = generate(tag, 1, "AllSeeds")
+        states, r = generate(tag, 1, seeds)
         st = {"states": r["states"], "distinct": r["distinct"], "depth": 1}
     else:
         states, r = generate(tag, 2, "AllSeeds")
@@ -143,7 +143,9 @@ def negative_control(recs, tag):
 
 
 def run_rewrite(prop, tier, tag):
-    states, gst = collect(tier, tag)
+    # C13's quick tier takes the hand-picked seeds (the twin seeds are C08's quick tier and both thorough tiers): the digest
+    # invariance of C13 is additionally covered by the separation and level-(A) parts of its own check
+    states, gst = collect(tier, tag, "HandOnly" if prop == "C13" and tier == "quick" else "AllSeeds")
     log(f"[rewrite] {len(states)} programs in {gst['distinct']} model states")
     recs = observe(states, tag)
     open_k = [k for k in vlib.load_known().get("open", []) if k["property"] in ("C08", "C13", "C11")]
